@@ -20,7 +20,7 @@ func init() {
 			"D2 second-call protocol: a failed open/listing of a directory and a failed root stat are reported to the callback with that error, the walker then returns what the callback decided and never originates SkipDir; the callback touches the DirEntry only when fserr==nil; " +
 			"D3 a failed Open/Stat/Extract of a required file is recorded under the running extractor's name on every path, statuses are built for every configured extractor from foundInv/errors keyed by its name, StatusFromErr selects failed vs partially-succeeded by its 'partial' argument; the lazy stat cache never keeps a stale error; " +
 			"D4 Scan turns the error of filesystem.Run, standalone.Run and detector.Run into a failed overall status on every path; D5 the gitignore stack pop is guarded against an empty stack. " +
-			"Added in round 2: D1 additionally: once fserr != nil a return that does not carry it is reachable only through the errorOnFSErrors == false edge. Added in round 3: the decisions and early exits of the callback's loop over the extractors are the audited ones (an Open failure for one extractor does not keep the file from the others). Added in round 7: D8 a deferred function literal assigns to an error result only when the result is nil, with a non-nil value, or with a value built from the old one. NOT decided: which files get extracted under a given fault sequence (needs executions).",
+			"Added in round 2: D1 additionally: once fserr != nil a return that does not carry it is reachable only through the errorOnFSErrors == false edge. Added in round 3: the decisions and early exits of the callback's loop over the extractors are the audited ones (an Open failure for one extractor does not keep the file from the others). Added in round 7: D8 a deferred function literal assigns to an error result only when the result is nil, with a non-nil value, or with a value built from the old one. Added in round 8: D5 the gitignore push/pop balance (shared with C01/C08) — a non-fatal .gitignore fault leaves the stack in step. NOT decided: which files get extracted under a given fault sequence (needs executions).",
 		Run: runC09,
 		Controls: []Mutant{
 			{Name: "size-stat-fatal", File: "extractor/filesystem/filesystem.go", Old: "				if err != nil {\n					if wc.errorOnFSErrors {\n						return fmt.Errorf(\"failed to get file size for %q: %w\", path, err)\n					}", New: "				if err != nil {\n					if true {\n						return fmt.Errorf(\"failed to get file size for %q: %w\", path, err)\n					}", Rule: "D1-fatal-only-on-request", Site: "handleFile"},
@@ -68,6 +68,8 @@ func runC09(p *Prog, r *Report) {
 	c09Surfaced(p, r, e)
 	c09Overall(p, r)
 	c09Pop(p, r, e)
+	r.Rule("D5-balanced", "a non-fatal .gitignore fault leaves the pattern stack in step with the directory nesting (shared with C01/C08)")
+	c08Balanced(p, r, e, "D5-balanced")
 	r.Rule("D8-deferred-keeps-error", "a deferred assignment to an error result never replaces a reported failure by nil")
 	deferredStoreKeepsError(p, r, "D8-deferred-keeps-error", p.FuncsIn("extractor/filesystem", "extractor/filesystem/internal", ".", "extractor/standalone", "plugin"), "a deferred function literal assigns to the function's error result unconditionally (`defer func() { err = f.Close() }()`): whenever the deferred call succeeds, a failure the body had reported — a read error while a required file is copied to a real path — is replaced by nil, the caller goes on with a truncated file and the extractor's status says SUCCEEDED")
 }
